@@ -273,6 +273,9 @@ func (e *env) call(req ua.Request) (ua.Response, string) {
 			return "no-handler"
 		}
 		if err != nil {
+			if sc, isStatus := err.(ua.StatusCode); isStatus && sc == ua.StatusBadSessionIDInvalid {
+				return "nosession"
+			}
 			switch err.Error() {
 			case "sub doesn't exist":
 				return "nosub"
@@ -898,8 +901,8 @@ func main() {
 	for i := 0; i < o.N(600, 8000) && r.InfraError == ""; i++ {
 		e.runHistory(nil, 8+e.rnd.Intn(16))
 	}
-	for _, b := range []string{"cs:id", "ds:st", "ds:panic", "ap:hit", "ap:miss", "ap:nopending", "ci:ids", "ci:nosub", "ci:notyours", "ci:panic",
-		"sm:st", "sm:panic", "di:st", "di:panic"} {
+	for _, b := range []string{"cs:id", "cs:nosession", "ds:st", "ds:nosession", "ap:hit", "ap:miss", "ap:nopending", "ci:ids", "ci:nosub", "ci:notyours", "ci:nosession",
+		"sm:st", "sm:nosession", "di:st", "di:nosession"} {
 		if r.Distribution[b] == 0 {
 			r.Unreached = append(r.Unreached, b)
 		}
